@@ -203,8 +203,12 @@ CHECKS["C15"] = dict(
          "table, and the head create_formula; TheoryParser.parse on every non-empty unparsed term of the shape clingo's grammar "
          "produces with any operator table (stack-shape invariant: no underflow, no missing table entry, loops terminate); "
          "__get_param for every name and flag combination; the loop and option parsers (C08).  All are total Lean definitions (no "
-         "input loops).  PARTIAL: the AST rewriting of transformers/ beyond __get_param / TheoryParser and the step-wise translate "
-         "methods of theory/ are covered by the error-class correspondence and the near-valid search on the real code (in-process "
+         "input loops).  The recursion of the step-wise translation (BodyFormula.translate over (formula, step) pairs, model TranslateRec): "
+         "translate_returns — defined by well-founded recursion, so it returns for every graph in which operands-first pairs point to "
+         "pairs of smaller rank, cyclic unfoldings through box / diamond pairs included; add_literal_assertion_holds — with the second "
+         "look of the Boolean connectives the assertion of StepData.add_literal never fails; add_literal_assertion_fails_without_second_look. "
+         "Its hypotheses are checked on the recorded nesting of the real translate calls.  PARTIAL: the AST rewriting of transformers/ "
+         "beyond __get_param / TheoryParser and what the step-wise translate methods write besides (C03/C05) are covered by the error-class correspondence and the near-valid search on the real code (in-process "
          "exception types, time limit, command line: PANIC / non-RuntimeError traceback / status 0 on rejection).",
     design="§6 C15", technique="Lean 4 proof (internal-error branches unreachable under the parser's arity contract; partial) + error-class correspondence + near-valid grammar search")
 
